@@ -106,6 +106,8 @@ CLAIMED.update({
             "untagged input contigs) the whole pipeline completes and every piece with a contig base in its core has a result with the C18 invariant "
             "and core_kept whose rows sit as one contiguous block (reversed exactly for minus-strand pieces) in a scaffold of an output assembly; "
             "two such pieces of one Pretext scaffold lie in one output scaffold in Pretext order; the hypothesis on input strands is shown necessary. "
+            "PAINTED maps: C02_completion_painted (remap_to_input completes on tiling maps with untagged or Painted baits) and C02_painted_maps_complete "
+            "(the whole pipeline, chromosome naming included, completes; three further hypotheses each shown necessary by a computed counterexample). "
             "Coq theorems about the remapping stage (remap_to_input), no size bound, for EVERY PretextView-model edit script and more: "
             "(1) C02_completion: for every map that tiles every scaffold it shows (ascending baits cover 1..E without hole or overlap, "
             "pieces >= 2 texels when a scaffold is shown in more than one piece, any order / orientation / grouping, any subset of "
